@@ -72,6 +72,9 @@ type sysScenario struct {
 
 const sysTimeout = 30 * time.Second
 
+// qCorruptActive: the running scenario returns damaged row data from one read (see runSysScenario)
+var qCorruptActive atomic.Bool
+
 // qHangSeen: a query of this run did not come to an end; the scenarios that exist to provoke that are not repeated
 var qHangSeen bool
 
@@ -229,12 +232,41 @@ func runSysScenario(c *Ctx, fixed bool, kind string) (term string, desc map[stri
 			faultDesc = append(faultDesc, fmt.Sprintf("read#%d", n))
 		}
 	}
+	// damaged row data: the k-th read that lies inside a block's row data comes back with a flipped bit and no
+	// error; the block fails its checksum after the read succeeded (the handle is fine, the bytes are not)
+	var injected atomic.Int64
+	corruptAt := int64(-1)
+	if !dedicated && c.chance(0.25) {
+		corruptAt = int64(c.intn(6))
+		faultDesc = append(faultDesc, fmt.Sprintf("rowdata-bitflip#%d", corruptAt))
+	}
+	var rowReadCtr atomic.Int64
+	qCorruptActive.Store(corruptAt >= 0)
+	w.store.corrupt = nil
+	if corruptAt >= 0 {
+		w.store.corrupt = func(h *qHandle, off int64, n int) bool {
+			f := w.byPtr[h.pointer]
+			if f == nil {
+				return false
+			}
+			for i := range f.blocks {
+				b := &f.blocks[i].meta
+				if b.HasRowDataHash && off >= int64(b.RowDataOffset) && off+int64(n) <= int64(b.RowDataOffset+b.RowDataSize) {
+					if rowReadCtr.Add(1)-1 == corruptAt {
+						injected.Add(1)
+						return true
+					}
+					return false
+				}
+			}
+			return false
+		}
+	}
 	if !dedicated && c.chance(0.2) {
 		sc.iterAt = c.intn(len(w.files) + 1)
 		faultDesc = append(faultDesc, fmt.Sprintf("iter@%d", sc.iterAt))
 	}
 	var openCtr, readCtr, delayCtr atomic.Int64
-	var injected atomic.Int64
 	w.store.fault = func(kind string, nth int, pointer string) error {
 		switch kind {
 		case "OpenFile":
@@ -941,7 +973,7 @@ func runSysScenario(c *Ctx, fixed bool, kind string) (term string, desc map[stri
 		bs.VerifSetSink(nil) // the log of the scenario is complete
 		bs.VerifSetPause(nil)
 		w.store.emit = false
-		w.store.fault, w.store.onCall, w.store.readHook, w.store.honourCtx = nil, nil, nil, false
+		w.store.fault, w.store.onCall, w.store.readHook, w.store.honourCtx, w.store.corrupt = nil, nil, nil, false, nil
 		w.meta.mu.Lock()
 		w.meta.failAt, w.meta.pauseAt = -1, -1
 		w.meta.mu.Unlock()
@@ -1089,7 +1121,7 @@ func classifyEngineErr(err error) terr {
 	}
 	var ids []int64
 	for i, e := range j.Unwrap() {
-		if !errors.Is(e, errInjected) {
+		if !errors.Is(e, errInjected) && !(qCorruptActive.Load() && strings.Contains(e.Error(), "hash mismatch")) {
 			return terr{kind: "other", text: "joined error does not wrap an injected fault: " + e.Error()}
 		}
 		ids = append(ids, int64(i))
